@@ -167,7 +167,9 @@ class ControlFlowGraph(DiGraph):
         """Retrieve a nodes immediate post dominator"""
         if self._ipdom is None:
             self._calculate_post_dominator_info()
-        return self._ipdom[node]
+        # A node from which the exit cannot be reached (an endless loop)
+        # has no immediate post dominator.
+        return self._ipdom.get(node, None)
 
     def can_reach(self, one, other):
         if self._reach is None:
